@@ -72,6 +72,12 @@ def discharge(ob, timeout_ms, use_cvc5=True, want_candidate=True):
     gs = z3.simplify(g) if not z3.is_quantifier(g) else g
     if z3.is_true(gs):
         return {"status": "proved", "backend": "evaluation", "seconds": 0.0}
+    if ob.info.get("backend") == "sympy":
+        from pyvc import sympy_backend
+        st_, why = sympy_backend.prove(ob.pc, g, timeout_s=timeout_ms / 1000)
+        if st_ == "proved":
+            return {"status": "proved", "backend": "sympy", "seconds": time.time() - t0}
+        sympy_reason = why
     s = z3.Solver()
     s.set("timeout", timeout_ms)
     for c in ob.pc:
